@@ -47,6 +47,9 @@ VReparse(ev) ==
   IF \E k \in 4..6 : ev[k][1] = "x" THEN "reparse:fails"
   ELSE FirstBad(<<
     Ok(ev[4][2] = ev[5][2] /\ ev[5][2] = ev[6][2], "parser-modes-agree"),
+    \* ev[7] = locus tags of the source genes along the sequence, ev[8] = the gene order each mode returns: a
+    \* position-sorted file with unique locus tags comes back in that order from every mode
+    Ok(\A k \in DOMAIN ev[8] : ev[8][k] = ev[7], "parser-modes-agree:gene-order"),
     Ok(Len(ev[6][2]) = Len(src), "reparse:gene-count"),
     Ok(Len(ev[6][2]) # Len(src) \/ \A i \in DOMAIN src : ev[6][2][i][1] = src[i][1], "reparse:structure"),
     Ok(Len(ev[6][2]) # Len(src) \/ \A i \in DOMAIN src : ev[6][2][i][2] = src[i][2], "reparse:strand"),
